@@ -19,6 +19,15 @@ CLAIMED = {
     "C16": dict(level="model_checking", tech="TLA+ spec (Deps.tla OutputDiag with flags) model-checked by TLC; every (configuration, flag set) replayed on the real tool and the four runs compared with the spec and with each other",
                 text="For every configuration of the defect-subset family X and the reference families N/M and each of the four flag sets: accepted iff the specification leaves no non-ignored diagnostic; non-ignored error lists identical to the run without flags; ignored rule silent; output sha256 identical whenever accepted without flags. FlagsOnlyNarrow is checked by TLC on the model.",
                 note="Trusted: TLC, concretiser, report parser."),
+    "C01": dict(level="exploration", tech="model-generated inputs: the accepted space is enumerated by TLC from the TLA+ families (MC_Container: feature pairs, syntax forms, literal kinds, API table, tags over files, todo, import tables); sensors = gofmt, Go compiler, package initialisation, in normal and --stub mode",
+                text="Every configuration the specification accepts in the listed families is generated in both modes over a pre-existing longer output file; the written file must be gofmt-stable, compile (normal: linked with the pinned runtime and the fixture universe; stub: -tags gontainerstub), and the probe must start (package init) and construct the container. The typing judgment is the compiler's; the specification contributes the enumerated accepted space.",
+                note="Trusted: Go toolchain, fixture universe (every named symbol exists). Not a proof: coverage is the enumerated families."),
+    "C14": dict(level="model_checking", tech="TLA+ spec of reference resolution (Imports.tla: whole-first-segment alias substitution) enumerated by TLC over alias tables x reference forms; each configuration compiled and executed; self-identifying fixture symbols and the import block compared",
+                text="Alias tables (single entries and chosen pairs: prefix-related aliases, aliases equal to real first path segments, aliases named like the packages the generated code imports) x reference forms (none, \".\", alias, alias/sub-path, full path, quoted/unquoted) in constructor, type, value, !value, decorator and function positions over ten fixture packages (prefix-related paths, equal last elements, illegal identifier characters, foreign modules).",
+                note="Trusted: as C02. Type positions are checked by compilation only."),
+    "C17": dict(level="exploration", tech="model-generated inputs (same TLA+ families as C01 plus rejected configurations of MC_Deps); pairwise comparison of the two modes: verdict, build constraint, compilation against a types-only fixture universe, reflected API, panics",
+                text="For every enumerated configuration both modes must agree on accept/reject; for accepted ones the stub must carry the gontainerstub constraint, build against fixture packages that contain only types, expose the same package / type / constructor / exported method set as the normal output (reflection), and its constructor and every generated method must panic.",
+                note="Trusted: Go toolchain, reflection, the types-only fixture copy."),
     "C02": dict(level="model_checking", tech="TLA+ run-time semantics (Container.tla: Build = cache lookup, creation, fields, calls/withers, decorators, cache store) explored by TLC; every history replayed on the compiled generated container linked with the real runtime; object graphs compared up to identity renaming",
                 text="TLC enumerates all choice vectors differing from a base service in at most two of: creation method (constructor, local constructor, error-returning constructor, by-value constructor, package variable, &composite, composite, type-only value/pointer, todo), two argument positions x argument form (int, uint64, float, bool, null, plain/padded strings, strings that look like other literals, @service, !tagged, !value, $gontainer, %param% of each type, multi-chunk, %%, function call, failing), fields (order, unexported), call/wither sequences, scope, decorators, getter; the expected object graph is computed by Container.tla; the probe reports the real graph.",
                 note="Trusted: TLC, concretiser, probe + fixture universe, canonicalisation of identities. Configurations the tool rejects / whose output does not compile are unobservable here (C11/C01)."),
